@@ -271,7 +271,7 @@ def real_dumps(doc, a, form=0, explicit_defaults=False):
         kw.setdefault('include', set(kp.TokenCategory))
         kw.setdefault('exclude', set())
         kw.setdefault('encoding', kp.Encoding.normalizedKern)
-    # Three routes to the same export (the result must not depend on the route): kp.dumps (a new Exporter per call); ONE long-lived
+    # Five routes to the same export (3 and 4 below; the result must not depend on the route): kp.dumps (a new Exporter per call); ONE long-lived
     # Exporter object per document with a new ExportOptions per call (the class API shown in the library's documentation); the same
     # long-lived Exporter with ONE long-lived ExportOptions object that is updated in place between the calls.
     c = export_context(doc)
@@ -283,7 +283,19 @@ def real_dumps(doc, a, form=0, explicit_defaults=False):
     okw = dict(kw)
     if 'encoding' in okw:
         okw['kern_type'] = okw.pop('encoding')
-    options = generic.Generic.parse_options_to_ExportOptions(**okw)
+    if route == 3:
+        # the caller's own ExportOptions: created with its defaults, every option set by attribute assignment afterwards
+        options = kp.ExportOptions.default() if c['n'] % 2 else kp.ExportOptions()
+        options.token_categories = kp.TokenCategory.valid(include=okw.get('include'), exclude=okw.get('exclude'))
+        for k, v in okw.items():
+            if k not in ('include', 'exclude'):
+                setattr(options, k, v)
+    elif route == 4:
+        # ... or built in one go by keyword, with the selected categories already computed
+        options = kp.ExportOptions(token_categories=kp.TokenCategory.valid(include=okw.get('include'), exclude=okw.get('exclude')),
+                                   **{k: v for k, v in okw.items() if k not in ('include', 'exclude')})
+    else:
+        options = generic.Generic.parse_options_to_ExportOptions(**okw)
     if route == 2:
         if c['options'] is None:
             c['options'] = options
@@ -304,7 +316,7 @@ def real_dumps(doc, a, form=0, explicit_defaults=False):
 
 
 _CTX = {}
-ROUTES = '0122112022101221'
+ROUTES = '0122112022101221340314'
 
 
 def export_context(doc):
